@@ -1,0 +1,22 @@
+//go:build verif
+
+package sql
+
+// VerifToken is an exported copy of a token of the hand written tokenizer.
+// Compiled only with `-tags verif`.
+type VerifToken struct {
+	Typ int
+	S   string
+	N   int64
+	F   float64
+}
+
+// VerifTokenize is tokenize().
+func VerifTokenize(s string) ([]VerifToken, error) {
+	ts, err := tokenize(s)
+	var res []VerifToken
+	for _, t := range ts {
+		res = append(res, VerifToken{t.typ, t.s, t.n, t.f})
+	}
+	return res, err
+}
